@@ -2,7 +2,9 @@
 """Copies validated seeded mutants from the sub-agents' scratch worktrees into /verif/seeded/<id>/
 (patch.diff, demo/, note.txt, meta.json). Detection results are merged from a try_mutant log."""
 import json, os, re, shutil, sys
-SEED = "/tmp/seed"
+import os as _os
+SEED = _os.environ.get("SEEDROOT", "/tmp/seed")
+PREFIX = _os.environ.get("SEEDPREFIX", "")  # e.g. "r2-" for the second round
 OUT = "/verif/seeded"
 val = {}
 for line in open(sys.argv[1]):
@@ -12,7 +14,7 @@ for line in open(sys.argv[1]):
 det = {}
 if len(sys.argv) > 2:
     for line in open(sys.argv[2]):
-        m = re.match(r"seed-(C\d+)-m(\d) (C\d+) rc=(\d+) violations=(\d+)\s*(.*)", line)
+        m = re.match(r"seed-" + PREFIX + r"(C\d+)-m(\d) (C\d+) rc=(\d+) violations=(\d+)\s*(.*)", line)
         if m:
             det.setdefault((m.group(1), m.group(2)), {})[m.group(3)] = dict(rc=int(m.group(4)), violations=int(m.group(5)), first=m.group(6)[:300])
 props = {json.loads(l)["id"]: json.loads(l) for l in open("/verif/properties.jsonl")}
@@ -21,7 +23,7 @@ for (p, i), v in sorted(val.items()):
     if not os.path.exists(f"{src}/mutant{i}.diff"):
         continue
     ok = v["apply"] == "ok" and v["build"] == "ok" and v["demo_head"] == 0 and v["demo_mutant"] != 0
-    d = f"{OUT}/{p}-m{i}"
+    d = f"{OUT}/{PREFIX}{p}-m{i}"
     os.makedirs(d, exist_ok=True)
     shutil.copy(f"{src}/mutant{i}.diff", f"{d}/patch.diff")
     if os.path.isdir(f"{d}/demo"):
@@ -31,7 +33,7 @@ for (p, i), v in sorted(val.items()):
     note = open(f"{src}/note{i}.txt").read() if os.path.exists(f"{src}/note{i}.txt") else ""
     open(f"{d}/note.txt", "w").write(note)
     meta = {
-        "id": f"{p}-m{i}", "breaks_property": p, "property_title": props[p]["title"],
+        "id": f"{PREFIX}{p}-m{i}", "breaks_property": p, "property_title": props[p]["title"],
         "origin": "written by an independent sub-agent that saw only the property text and its own scratch worktree of /repo",
         "needs_to_manifest": note.strip().split("\n")[0:12],
         "validation": {"applies_cleanly": v["apply"] == "ok", "builds": v["build"] == "ok",
